@@ -145,11 +145,70 @@ type Gen struct {
 	// users of Gen are unchanged.
 	MoreNullish bool
 	NullDicts   int // how many null Dicts have been drawn so far
+	// TinyRate > 0: 1 in TinyRate of the TEXTS the generator draws (identifier, Op text, comment
+	// text, string literal, Tag key and value, Dict key text) is a tiny text (TinyText: the empty
+	// string, any one byte, two bytes of TinyAlphabet).  0 (the default) = never, and no extra
+	// draw is made: the other users of Gen are unchanged.
+	TinyRate int
+	Tiny     int // how many tiny texts have been drawn so far
+}
+
+// TinyAlphabet: the bytes two-byte tiny texts are made of: comment markers, quotes, escapes,
+// blanks and line ends, brackets, separators, a letter, a digit, the blank identifier, NUL,
+// DEL, and bytes that are not UTF-8 on their own (a lone continuation byte, the lead byte of
+// a two-byte sequence, 0xff).
+var TinyAlphabet = []byte("/*\n\r\t \"'`\\%+-.:;,=<>(){}[]a0_#@!&|~^?$\x00\x7f\x80\xc3\xa9\xff")
+
+// TinyTexts1 lists every one-byte string.
+func TinyTexts1() []string {
+	out := make([]string, 256)
+	for i := range out {
+		out[i] = string([]byte{byte(i)})
+	}
+	return out
+}
+
+// TinyTexts2 lists every two-byte string over TinyAlphabet.
+func TinyTexts2() []string {
+	var out []string
+	for _, a := range TinyAlphabet {
+		for _, b := range TinyAlphabet {
+			out = append(out, string([]byte{a, b}))
+		}
+	}
+	return out
+}
+
+// TinyText draws a tiny text: "" (1 in 16), one byte, uniformly (9 in 16), or two bytes of
+// TinyAlphabet (6 in 16).  Code that looks at the first bytes of a text (prefix tests for
+// comment markers, quotes, digits) meets its boundary cases here.
+func TinyText(r *rand.Rand) string {
+	switch k := r.Intn(16); {
+	case k == 0:
+		return ""
+	case k < 10:
+		return string([]byte{byte(r.Intn(256))})
+	}
+	return string([]byte{TinyAlphabet[r.Intn(len(TinyAlphabet))], TinyAlphabet[r.Intn(len(TinyAlphabet))]})
+}
+
+// tiny: (a tiny text, true) once in TinyRate calls; no draw when TinyRate is 0.
+func (g *Gen) tiny() (string, bool) {
+	if g.TinyRate > 0 && g.R.Intn(g.TinyRate) == 0 {
+		g.Tiny++
+		return TinyText(g.R), true
+	}
+	return "", false
 }
 
 func pick(r *rand.Rand, l []string) string { return l[r.Intn(len(l))] }
 
-func (g *Gen) Ident() string { return pick(g.R, identPool) }
+func (g *Gen) Ident() string {
+	if s, ok := g.tiny(); ok {
+		return s
+	}
+	return pick(g.R, identPool)
+}
 
 func (g *Gen) LitValue() interface{} {
 	r := g.R
@@ -157,6 +216,9 @@ func (g *Gen) LitValue() interface{} {
 	case 0:
 		return r.Intn(2) == 0
 	case 1:
+		if s, ok := g.tiny(); ok {
+			return s
+		}
 		return AdvString(r)
 	case 2:
 		return r.Intn(2000) - 1000
@@ -196,6 +258,9 @@ func (g *Gen) Token() term.Node {
 	case 0, 1, 2:
 		return term.Id(g.Ident())
 	case 3, 4:
+		if s, ok := g.tiny(); ok {
+			return term.Op(s)
+		}
 		return term.Op(pick(r, opPool))
 	case 5:
 		return term.Named(pick(r, NamedTokens))
@@ -306,12 +371,20 @@ func (g *Gen) Dict(depth int) *term.Dict {
 	for i := 0; i < n; i++ {
 		// keys: literals and identifiers with pairwise distinct texts (C16 explores the rest)
 		var k term.Node
-		name := g.Ident() + string(rune('0'+i))
+		tinyKey, isTiny := g.tiny()
+		name := tinyKey
+		if !isTiny {
+			name = g.Ident() + string(rune('0'+i))
+		}
 		if seen[name] {
 			continue
 		}
 		seen[name] = true
-		if r.Intn(2) == 0 {
+		if isTiny {
+			// the whole key text is tiny; always a string literal (quoting is injective, so
+			// distinct names give distinct key texts)
+			k = term.S(term.Lit(name))
+		} else if r.Intn(2) == 0 {
 			k = term.S(term.Id(name))
 		} else {
 			k = term.S(term.Lit(name))
@@ -377,8 +450,20 @@ func (g *Gen) Stmt(depth int) *term.Stmt {
 		}
 		switch r.Intn(30) {
 		case 0:
+			if s, ok := g.tiny(); ok {
+				st.Items = append(st.Items, term.Comment{Text: s, F: r.Intn(3) == 0})
+				break
+			}
 			st.Items = append(st.Items, term.Comment{Text: pick(r, []string{"c", "two\nlines", "//raw", "/*raw*/", "x }"})})
 		case 1:
+			if s, ok := g.tiny(); ok {
+				kv := [2]string{"k", s}
+				if r.Intn(2) == 0 {
+					kv = [2]string{s, TinyText(r)}
+				}
+				st.Items = append(st.Items, term.Tag{KV: [][2]string{kv}})
+				break
+			}
 			st.Items = append(st.Items, term.Tag{KV: [][2]string{{"k", AdvString(r)}}})
 		case 2:
 			if depth < g.MaxDepth {
